@@ -33,6 +33,10 @@ pub const DEFAULT_RULES: &str = "'remove_spaces', 'remove_comments', 'compute_ex
 struct Case<'a> {
     c: &'a Value,
     n: usize,
+    /// reference rendering of a TWIN graph: file 3 names its dependency by a canonical string, because the model
+    /// `require` of the reference semantics is keyed by the literal alone while a real require string denotes a file
+    /// only relative to the requiring file
+    canon: bool,
 }
 
 impl<'a> Case<'a> {
@@ -51,12 +55,38 @@ impl<'a> Case<'a> {
     fn dataext(&self) -> &str {
         self.c["dataext"].as_str().unwrap_or("json")
     }
+    /// TWIN graph (1->2, 1->3, 2->4, 3->5): "dot" | "dotdot" -- files 2 and 3 sit in sibling directories and write the
+    /// SAME literal (`./c` / `../c`) for files 4 (src/one/c) and 5 (src/two/c)
+    fn twin(&self) -> Option<&str> {
+        if self.c["feat"]["k"] == json!("twin") {
+            Some(self.c["feat"]["kind"].as_str().unwrap_or("dot"))
+        } else {
+            None
+        }
+    }
     /// directory of file f below proj/ ("src" or "src/sub" when the case puts module c in a sub-directory)
     fn dir(&self, f: usize) -> &'static str {
-        if f == 4 && self.c["sub"] == json!(1) {
-            "src/sub"
+        match (self.twin(), f) {
+            (Some("dotdot"), 2) => "src/one/p",
+            (Some("dotdot"), 3) => "src/two/p",
+            (Some(_), 2) | (Some(_), 4) => "src/one",
+            (Some(_), 3) | (Some(_), 5) => "src/two",
+            (Some(_), _) => "src",
+            (None, _) => {
+                if f == 4 && self.c["sub"] == json!(1) {
+                    "src/sub"
+                } else {
+                    "src"
+                }
+            }
+        }
+    }
+    /// base name of file f without extension
+    fn stem(&self, f: usize) -> &'static str {
+        if self.twin().is_some() && f == 5 {
+            "c"
         } else {
-            "src"
+            NAMES[f - 1]
         }
     }
     fn file_name(&self, f: usize) -> String {
@@ -64,8 +94,8 @@ impl<'a> Case<'a> {
             return "main.lua".into();
         }
         match self.kind(f) {
-            "data" => format!("{}.{}", NAMES[f - 1], self.dataext()),
-            _ => format!("{}.{}", NAMES[f - 1], self.ext()),
+            "data" => format!("{}.{}", self.stem(f), self.dataext()),
+            _ => format!("{}.{}", self.stem(f), self.ext()),
         }
     }
     fn path(&self, f: usize) -> String {
@@ -74,6 +104,15 @@ impl<'a> Case<'a> {
     /// the literal require string for target t written in file f (spelling sp); by construction every string
     /// denotes the same file wherever it is used (all requirers of one directory use that directory's spellings)
     fn spelling(&self, f: usize, t: usize, sp: u64) -> String {
+        if let Some(kind) = self.twin() {
+            let with_ext = self.c["sp0"] == json!(1) && self.kind(t) != "missing";
+            let tail = if with_ext { self.file_name(t) } else { self.stem(t).to_string() };
+            return match (f, t) {
+                (3, 5) if self.canon => "@twin-d".to_string(),
+                (2, 4) | (3, 5) => format!("{}{}", if kind == "dotdot" { "../" } else { "./" }, tail),
+                _ => format!("./{}/{}", &self.dir(t)[4..], if sp % 2 == 1 && self.kind(t) != "missing" { self.file_name(t) } else { self.stem(t).to_string() }),
+            };
+        }
         let stem = NAMES[t - 1];
         let full = self.file_name(t);
         let data = self.kind(t) == "data";
@@ -427,7 +466,7 @@ pub fn main(args: &[String]) -> i32 {
     for c in &cases {
         let id = c["id"].clone();
         let n = c["n"].as_u64().unwrap() as usize;
-        let case = Case { c, n };
+        let case = Case { c, n, canon: false };
         let g = json!({"n": n, "kind": c["kind"], "calls": c["calls"].as_array().unwrap().iter().map(|cs| Value::Array(cs.as_array().unwrap().iter().map(|x| json!({"t": x["t"], "lit": x["lit"], "shadow": x["shadow"], "excl": x["excl"]})).collect())).collect::<Vec<_>>()});
         if hung {
             status.emit(&json!({"id": id, "status": "not-run-after-hang", "out": "", "files": {}, "text": ""}));
@@ -519,7 +558,7 @@ pub fn main(args: &[String]) -> i32 {
         // which files does the message name: the path of an existing file, the requested string of a missing one
         let mut named = Vec::new();
         for f in 1..=n {
-            let needle = if case.kind(f) == "missing" { format!("{}/{}", case.dir(f), NAMES[f - 1]) } else { format!("{}/{}", case.dir(f), case.file_name(f)) };
+            let needle = if case.kind(f) == "missing" { format!("{}/{}", case.dir(f), case.stem(f)) } else { format!("{}/{}", case.dir(f), case.file_name(f)) };
             if text.contains(&needle) {
                 named.push(f);
             }
@@ -571,10 +610,18 @@ pub fn main(args: &[String]) -> i32 {
             if case.kind(t) == "missing" {
                 continue;
             }
+            let canon_case = Case { c, n, canon: true };
+            let canon_text;
+            let ref_text: &String = if case.twin().is_some() && t == 3 && !c["override"].is_object() {
+                canon_text = module_text(&canon_case, t);
+                &canon_text
+            } else {
+                &texts[&t]
+            };
             let mp = if case.kind(t) == "data" {
                 datum_program(&data_datum(case.dataext()))
             } else {
-                match luaparse::parse(texts[&t].as_bytes(), Dialect::Luau) {
+                match luaparse::parse(ref_text.as_bytes(), Dialect::Luau) {
                     Ok(p) => p,
                     Err(_) if matches!(case.kind(t), "broken") => continue,
                     Err(e) => {
@@ -589,7 +636,7 @@ pub fn main(args: &[String]) -> i32 {
             for f in 1..=n {
                 for cl in case.calls(f) {
                     if cl["t"] == json!(t) && cl["lit"] == json!(1) {
-                        let s = case.spelling(f, t, cl["sp"].as_u64().unwrap_or(0));
+                        let s = canon_case.spelling(f, t, cl["sp"].as_u64().unwrap_or(0));
                         if !strings.contains(&s) {
                             strings.push(s);
                         }
